@@ -56,6 +56,11 @@ class PrecipitateModel (PrecipitateBase):
             data['PBM_bounds_' + self.phases[p]] = self.PBM[p].PSDbounds
             data['PBM_size_' + self.phases[p]] = self.PBM[p].PSDsize
             data['eqAspectRatio_' + self.phases[p]] = self.eqAspectRatio[p]
+            #Recorded PSD history (arrays are None if recording was never enabled)
+            if self.PBM[p]._recordedTime is not None and self.PBM[p]._recordedBins is not None and self.PBM[p]._recordedPSD is not None:
+                data['PBM_recordedTime_' + self.phases[p]] = self.PBM[p]._recordedTime
+                data['PBM_recordedBins_' + self.phases[p]] = self.PBM[p]._recordedBins
+                data['PBM_recordedPSD_' + self.phases[p]] = self.PBM[p]._recordedPSD
         return data
     
     def fromDict(self, data):
@@ -71,6 +76,11 @@ class PrecipitateModel (PrecipitateBase):
             self.PBM[p].PSDsize = size
             self.PBM[p].PSDbounds = bounds
             self.eqAspectRatio[p] = eqAR
+            if 'PBM_recordedTime_' + self.phases[p] in data and 'PBM_recordedBins_' + self.phases[p] in data and 'PBM_recordedPSD_' + self.phases[p] in data:
+                self.PBM[p]._record = True
+                self.PBM[p]._recordedTime = data['PBM_recordedTime_' + self.phases[p]]
+                self.PBM[p]._recordedBins = data['PBM_recordedBins_' + self.phases[p]]
+                self.PBM[p]._recordedPSD = data['PBM_recordedPSD_' + self.phases[p]]
 
     def setPBMParameters(self, cMin = 1e-10, cMax = 1e-9, bins = 150, minBins = 100, maxBins = 200, adaptive = True, phase = None):
         '''
